@@ -35,6 +35,9 @@ type pdCase struct {
 	// rendered the way AMF encodes extensions -- a link listed under doc:customDomainProperties, the link's id used as
 	// the property that points to the extension node, the extension node carrying core:extensionName
 	Custom string `json:"custom,omitempty"`
+	// Wide: the validation that observes the reached nodes constrains 36 more paths (constraints that always hold), so
+	// that one validation carries more nested constraints than any fixture does
+	Wide bool `json:"wide,omitempty"`
 }
 
 type pdNodeObs struct {
@@ -124,7 +127,24 @@ func renderPdGraph(g pdGraph, custom string) string {
 	return string(b)
 }
 
-func renderPdProfile(paths []pdPath) string {
+// pdPads: 36 distinct two-step paths (every pair of p, q, r and their converses), each with a nested constraint that
+// every node satisfies; on the graphs of the cases most of them reach different, non-empty sets of nodes
+func pdPads(except string) map[string]any {
+	out := map[string]any{}
+	steps := []string{"p", "q", "r", "p^", "q^", "r^"}
+	for _, a := range steps {
+		for _, b := range steps {
+			k := "ex." + a + " / ex." + b
+			if k != except {
+				out[k] = map[string]any{"nested": map[string]any{
+					"propertyConstraints": map[string]any{"ex.neverPresent": map[string]any{"maxCount": 0}}}}
+			}
+		}
+	}
+	return out
+}
+
+func renderPdProfile(paths []pdPath, wide bool) string {
 	names := []any{}
 	vals := map[string]any{}
 	for _, p := range paths {
@@ -158,8 +178,8 @@ func strip(s string) string {
 	return strings.TrimPrefix(s, "lit-")
 }
 
-func runPdBatch(paths []pdPath, g pdGraph, custom string) ([]pdPathObs, error) {
-	prof := renderPdProfile(paths)
+func runPdBatch(paths []pdPath, g pdGraph, custom string, wide bool) ([]pdPathObs, error) {
+	prof := renderPdProfile(paths, wide)
 	data := renderPdGraph(g, custom)
 	rep, err := pkg.ValidateWithConfiguration(prof, data, false, nil, clockA, config.DefaultReportConfiguration())
 	if err != nil {
@@ -236,7 +256,7 @@ func runPathDen(c pdCase) (obs pdObs) {
 				err = fmt.Errorf("panic: %v", p)
 			}
 		}()
-		return runPdBatch(ps, c.Graph, c.Custom)
+		return runPdBatch(ps, c.Graph, c.Custom, c.Wide)
 	}
 	r, err := safe(c.Paths)
 	if err == nil {
